@@ -352,6 +352,15 @@ class OutProtocolBase(ProtocolMixin):
         elif cls_attrs.format is not None:
             return cls_attrs.format % value
 
+        if isinstance(value, float):
+            # the xs:double literals for the special values
+            if value != value:
+                return 'NaN'
+            if value == float('inf'):
+                return 'INF'
+            if value == float('-inf'):
+                return '-INF'
+
         return repr(value)
 
     def integer_to_bytes(self, cls, value, **_):
